@@ -6,6 +6,17 @@ REPO="/repo"; OUT="/verif/mutants"
 FW="crates/maybenot/src/framework.rs"; ST="crates/maybenot/src/state.rs"; MA="crates/maybenot/src/machine.rs"; AC="crates/maybenot/src/action.rs"; DI="crates/maybenot/src/dist.rs"
 L="crates/maybenot-simulator/src/lib.rs"; N="crates/maybenot-simulator/src/network.rs"; Q="crates/maybenot-simulator/src/queue_peek.rs"; FF="crates/maybenot-ffi/src/lib.rs"; FFI="crates/maybenot-ffi/src/ffi.rs"
 M = [
+ ("unfix-direct_return_of_due_action", L, """        if a.integration_delay == Duration::default() {
+            // the action was strictly the earliest item and takes effect at
+            // its own time: its event is the next event. Queueing it and
+            // picking again would let whatever the action's effect makes
+            // eligible (a block expiry of zero duration, packets released by a
+            // now bypassable block) overtake the event that reports it, and a
+            // Cancel or newer action triggered that way would find the slot
+            // already empty.
+            return Pick::Done(Some(a));
+        }
+        sq.push_sim(a.clone());""", """        sq.push_sim(a.clone());""", ["C16","C17"], []),
  ("fw-no-bounds-check-timerend", FW, """                let mi = machine.into_raw();
                 if mi >= self.runtime.len() {
                     return;
@@ -18,7 +29,7 @@ M = [
  ("fw-limit-consumed-by-any-blockingbegin", FW, """                        && mi == machine.into_raw()
 """, """                        && (mi == machine.into_raw() || mi < usize::MAX)
 """, ["C07","C05"], []),
- ("fw-action-scheduled-before-counter-update", FW, """                let (allow_schedule, state_changed) = self.update_counter(mi);
+ ("fw-action-scheduled-before-counter-update-EQUIVALENT-since-bdc021e", FW, """                let (allow_schedule, state_changed) = self.update_counter(mi);
 
                 // schedule an action if allowed by counter update and below all limits
                 if allow_schedule && below_limits {
@@ -26,7 +37,7 @@ M = [
                 }""", """                if below_limits {
                     self.schedule_action(mi, next_state);
                 }
-                let (_allow_schedule, state_changed) = self.update_counter(mi);""", ["C05"], ["C08"]),
+                let (_allow_schedule, state_changed) = self.update_counter(mi);""", [], ["C08"]),
  ("fw-ongoing-block-ignored", FW, """        if self.blocking_active {
             // account for ongoing blocking as well, add duration""", """        if self.blocking_active && self.runtime.is_empty() {
             // account for ongoing blocking as well, add duration""", ["C03","C05"], []),
@@ -104,7 +115,7 @@ M = [
                         format!("for Geometric dist""", """                if false && probability != 0.0 && probability < DIST_MIN_PROBABILITY {
                     Err(Error::Machine(
                         format!("for Geometric dist""", ["C12"], []),
- ("sim-block-replace-ignored", L, "if replace || block > client.blocking_until.unwrap_or(a.time) {", "if block > client.blocking_until.unwrap_or(a.time) {", ["C16"], []),
+ ("sim-block-replace-ignored", L, "                    Some(current) => replace || block > current,", "                    Some(current) => block > current,", ["C16"], []),
  ("sim-new-action-does-not-overwrite", L, """                state.scheduled_action[machine.into_raw()] = Some(ScheduledAction {
                     action: action.clone(),
                     time: *current_time + *timeout + trigger_delay,
@@ -152,7 +163,7 @@ for name,f,a,b,det,sil in M:
     open(os.path.join(OUT,name+".patch"),"w").write(d)
     idx.append(dict(name=name,patch="mutants/"+name+".patch",detected_by=det,silent=sil))
 # reverse patches of the fix commits and the FFI flag swap
-for n,det in [("unfix-zero_total_padding",["C02","C07","C05"]),("unfix-global_counterzero_guard",["C08","C10","C05"]),("unfix-double_signal_all",["C09","C05"]),("unfix-leftover_signal",["C09","C05"]),("unfix-nan_validation",["C12"]),("unfix-single_read",["C11"]),("unfix-pps_division",["C19"]),("unfix-zero_duration_timer",["C18"]),("unfix-stale_pending_action",["C08","C05"]),("unfix-div_duration_rounding",["C03"]),("ffi-swap-flags",["C20"]),("fw-global-padding-count-thread-local",["C05"])]:
+for n,det in [("unfix-zero_total_padding",["C02","C07","C05"]),("unfix-global_counterzero_guard",["C08","C10","C05"]),("unfix-double_signal_all",["C09","C05"]),("unfix-leftover_signal",["C09","C05"]),("unfix-nan_validation",["C12"]),("unfix-single_read",["C11"]),("unfix-pps_division",["C19"]),("unfix-zero_duration_timer",["C18"]),("unfix-stale_pending_action",["C08","C05"]),("unfix-div_duration_rounding",["C03"]),("unfix-zero_duration_block_start",["C16"]),("unfix-pick_next_recursion",["C19"]),("unfix-trace_capacity_from_bound",["C19"]),("ffi-swap-flags",["C20"]),("fw-global-padding-count-thread-local",["C05"])]:
     idx.append(dict(name=n,patch="mutants/"+n+".patch",detected_by=det,silent=[]))
 json.dump(idx,open(existing,"w"),indent=1)
 print(len(idx),"mutants indexed")
